@@ -94,7 +94,8 @@ def main():
             meta["ran"].append("git -C /repo apply patch.diff && ./check %s %s -> exit %d" % (pid, tier, rc))
             print(pid, results[pid], flush=True)
     finally:
-        sh("git -C " + REPO + " checkout -- .")
+        # (reset first: a failed three-way apply leaves unmerged index entries behind)
+        sh("git -C " + REPO + " reset -q && git -C " + REPO + " checkout -- .")
     meta["checks"] = results
     meta["detected_by"] = [p for p, r in results.items() if r["exit"] == 1]
     finish(name, src, meta)
